@@ -102,7 +102,10 @@ func (b *pb) themeVal(w int) (string, bool) {
 }
 
 func (b *pb) set(u int, w int) {
-	if v, ok := b.themeVal(w); ok {
+	if v, ok := b.themeVal(w); ok && !(w < 6 && len(v) > 8193) {
+		// (a theme value drawn for another component may be one of the huge ones, which are kept away
+		// from scheme, credentials, host and port: the library's handling of those is quadratic - a
+		// 1 MiB host keeps one worker busy for half an hour - and that is C20's business)
 		b.add(Op{K: "set", P: b.party[u], H: u, W: w, A: QS(v)})
 		if w == 7 {
 			for _, s := range b.sps {
